@@ -11,7 +11,7 @@ the record itself (the model's inventory has one line per object it frees).
 import errno
 import re
 
-from extract import src, strip_comments, write, ExtractError, fn_body, define
+from extract import src, strip_comments, write, ExtractError, fn_body_x as fn_body, define
 
 
 def _zconst(text, name):
